@@ -37,6 +37,28 @@ class Ctx:
             self._objs[key] = out
         return self._objs[key]
 
+    def input_distribution(self):
+        """what the seeded generator actually produced in this run (every object built through `objects`), by stratum"""
+        from collections import Counter
+        seen, d = set(), {k: Counter() for k in ('order', 'nfp', 'sG,spsi', 'nphi', 'kind', 'helicity!=0', 'asymmetric', 'I2!=0', 'p2!=0', 'sigma0!=0', 'B2s!=0', 'sparse harmonics', 'B0!=1', 'newton warned')}
+        for lst in self._objs.values():
+            for c, q, cap in lst:
+                kw = c['kwargs']
+                key = json.dumps(kw, sort_keys=True, default=str)
+                if key in seen:
+                    continue
+                seen.add(key)
+                d['order'][kw.get('order')] += 1; d['nfp'][int(kw.get('nfp', 1))] += 1; d['sG,spsi'][str((kw.get('sG', 1), kw.get('spsi', 1)))] += 1
+                d['nphi'][int(kw.get('nphi', 0))] += 1; d['kind'][c.get('kind')] += 1
+                d['helicity!=0'][bool(q.helicity != 0)] += 1; d['asymmetric'][bool(q.lasym)] += 1
+                for nm in ('I2', 'p2', 'sigma0', 'B2s'):
+                    d[nm + '!=0'][bool(kw.get(nm, 0) != 0)] += 1
+                coef = [kw.get(a, []) for a in ('rc', 'zs', 'rs', 'zc')]
+                d['sparse harmonics'][bool(any(len(v) > 1 and any(x == 0 for x in v[1:]) and any(x != 0 for x in v[1:]) for v in coef))] += 1
+                d['B0!=1'][bool(kw.get('B0', 1.0) != 1.0)] += 1
+                d['newton warned'][bool(getattr(cap, 'newton_warned', False))] += 1
+        return dict(distinct_configurations=len(seen), strata={k: {str(a): b for a, b in v.items()} for k, v in d.items()})
+
     def all_orders(self, count=None, shear=False):
         out = []
         for o in ('r1', 'r2', 'r3'):
